@@ -15,6 +15,8 @@ func (s *scn) applyExtra(st CStep) {
 		s.applyCall(st)
 	case "mut":
 		s.applyMutate(st)
+	case "occupycycle":
+		s.applyOccupyCycle(st)
 	default:
 		applyGov(s, st)
 	}
